@@ -29,6 +29,15 @@ class SearchHooks(Hooks):
     def __init__(self, opaque_names=()):
         self.opaque_names = set(opaque_names)
 
+    def _right_name(self, eng):
+        """local that holds the right end of the bisection interval of the analysed function (None if it has none)"""
+        if not hasattr(self, "_rn"):
+            try:
+                self._rn = bisect_names(eng.fi.node)["right"]
+            except AnalysisError:
+                self._rn = None
+        return self._rn
+
     def on_call(self, node, fname, args, kwargs, st, eng):
         if fname == "self.calculate_excess" and len(args) >= 2:
             e = exc(args[0], args[1])
@@ -55,8 +64,10 @@ class SearchHooks(Hooks):
             k = sum(1 for e in st.events if e.kind == "OPAQUE" and e.data[0] == key and e.node is stmt)
             st.env[key] = Rat.atom(f"{key}#{stmt.lineno}" + (f".{k}" if k else ""))  # fresh per execution of the statement
             st.emit("OPAQUE", (key, val.text), stmt)
-        if key == "x_r_idx" and not any(e.kind == "XR0" for e in st.events):
-            st.emit("XR0", st.env.get("x_r_idx"), stmt)
+        if "[" not in key and "." not in key and not any(e.kind == "XR0" for e in st.events):
+            rn = self._right_name(eng)
+            if rn is not None and key == rn:
+                st.emit("XR0", st.env.get(rn), stmt)
         if key.startswith("self.calculated_temperatures["):
             idx = None
             for t in getattr(stmt, "targets", []):
@@ -187,3 +198,115 @@ def argopt_final_pick(fn: ast.FunctionDef):
                 crit = "excess"
         return {"node": s_, "func": attr_chain(call.func), "filter_ok": filter_ok, "criterion": crit, "target": s_.targets[0].id if isinstance(s_.targets[0], ast.Name) else None}
     return None
+
+
+# ---------------------------------------------------------------------------
+# RowWise search: the local names that carry the selection, derived from the code (no local name is assumed)
+# ---------------------------------------------------------------------------
+
+FIELD_GENERATORS = ("field_optimization_fr", "field_optimization_wp_space_fr")
+
+
+def rowwise_names(fn: ast.FunctionDef):
+    """-> (final, via, extra)
+    final: locals initialised with None that are returned as the first element (the coordinates the constructor
+           publishes as self.selected_coordinates)
+    via:   None-initialised locals copied into a final name (accumulators, e.g. the best field of the sweep)
+    extra: further locals whose definitions the slice must keep (everything returned, everything a field generator binds)"""
+    from ..model import walk_no_nested
+
+    none_init, copies, returned0, extra = set(), {}, set(), set()
+    for n in walk_no_nested(fn):
+        if isinstance(n, ast.Assign) and len(n.targets) == 1:
+            t, v = n.targets[0], n.value
+            if isinstance(t, ast.Name) and isinstance(v, ast.Constant) and v.value is None:
+                none_init.add(t.id)
+            if isinstance(t, ast.Name) and isinstance(v, ast.Name):
+                copies.setdefault(t.id, set()).add(v.id)
+            if isinstance(v, ast.Call) and attr_chain(v.func) in FIELD_GENERATORS:
+                for x in ast.walk(t):
+                    if isinstance(x, ast.Name):
+                        extra.add(x.id)
+        if isinstance(n, ast.Return) and n.value is not None:
+            elts = n.value.elts if isinstance(n.value, ast.Tuple) else [n.value]
+            if elts and isinstance(elts[0], ast.Name):
+                returned0.add(elts[0].id)
+            for e in elts:
+                if isinstance(e, ast.Name):
+                    extra.add(e.id)
+    final = returned0 & none_init
+    via, work = set(), list(final)
+    while work:
+        x = work.pop()
+        for y in copies.get(x, ()):  # x = y
+            if y in none_init and y not in via and y not in final:
+                via.add(y)
+                work.append(y)
+    if not final:
+        raise AnalysisError(f"{fn.name}: no None-initialised local is returned as the selected coordinates")
+    return final, via, extra | final | via
+
+
+# ---------------------------------------------------------------------------
+# integer bisection: the locals that play the roles (left end, right end, midpoint, reference sign, counter)
+# ---------------------------------------------------------------------------
+
+def _half_sum_names(e: ast.expr):
+    """ceil|floor|int|round((A + B) / 2)  or  (A + B) // 2   ->  (A, B)"""
+    if isinstance(e, ast.Call) and attr_chain(e.func) in ("ceil", "floor", "int", "round", "math.ceil", "math.floor", "np.ceil", "np.floor") and len(e.args) == 1:
+        e = e.args[0]
+    if isinstance(e, ast.BinOp) and isinstance(e.op, (ast.Div, ast.FloorDiv)) and isinstance(e.right, ast.Constant) and e.right.value == 2 \
+            and isinstance(e.left, ast.BinOp) and isinstance(e.left.op, ast.Add) and isinstance(e.left.left, ast.Name) and isinstance(e.left.right, ast.Name):
+        return e.left.left.id, e.left.right.id
+    return None
+
+
+_BISECT_CACHE: dict = {}
+
+
+def bisect_names(fn: ast.FunctionDef) -> dict:
+    """-> {'loop', 'left', 'right', 'mid', 'ref_sign', 'counter'} read off the code: the midpoint is the target of
+    ceil((A + B) / 2) inside the while loop, the left end is the one of A / B that starts as an integer constant,
+    the reference sign is the local defined as sign(..) before the loop that the loop compares against"""
+    from ..model import walk_no_nested
+
+    if id(fn) in _BISECT_CACHE:
+        return _BISECT_CACHE[id(fn)]
+    out = None
+    for loop in [n for n in walk_no_nested(fn) if isinstance(n, ast.While)]:
+        for s_ in ast.walk(loop):
+            if isinstance(s_, ast.Assign) and len(s_.targets) == 1 and isinstance(s_.targets[0], ast.Name):
+                ab = _half_sum_names(s_.value)
+                if ab:
+                    out = {"loop": loop, "mid": s_.targets[0].id, "ends": ab}
+                    break
+        if out:
+            break
+    if out is None:
+        raise AnalysisError(f"{fn.name}: integer bisection loop (midpoint = ceil((l + r) / 2)) not found")
+    loop = out["loop"]
+    const_init = set()
+    sign_defs = set()
+    for s_ in walk_no_nested(fn):
+        if isinstance(s_, ast.Assign) and len(s_.targets) == 1 and isinstance(s_.targets[0], ast.Name) and s_.lineno < loop.lineno:
+            if isinstance(s_.value, ast.Constant) and isinstance(s_.value.value, int) and not isinstance(s_.value.value, bool):
+                const_init.add(s_.targets[0].id)
+            if isinstance(s_.value, ast.Call) and attr_chain(s_.value.func) == "sign":
+                sign_defs.add(s_.targets[0].id)
+    a, b = out["ends"]
+    left = [x for x in (a, b) if x in const_init]
+    if len(left) != 1:
+        raise AnalysisError(f"{fn.name}: cannot tell the left end of the bisection interval ({a}, {b})")
+    out["left"] = left[0]
+    out["right"] = b if left[0] == a else a
+    ref = None
+    for c in ast.walk(loop):
+        if isinstance(c, ast.Compare) and len(c.ops) == 1 and isinstance(c.ops[0], (ast.Eq, ast.NotEq)):
+            for x in (c.left, c.comparators[0]):
+                if isinstance(x, ast.Name) and x.id in sign_defs:
+                    ref = x.id
+    out["ref_sign"] = ref
+    t = loop.test
+    out["counter"] = t.left.id if isinstance(t, ast.Compare) and isinstance(t.left, ast.Name) else None
+    _BISECT_CACHE[id(fn)] = out
+    return out
